@@ -368,6 +368,7 @@ FUNCS = [
     fn("kiste_kopie_aendern", [("k", TS("Kiste"), False)], TZ, [setv(idx_lv(fld_lv("inhalt", lvid("k")), zl(1)), zl(99)), RET(bin_("idx", {"k": "fld", "f": "inhalt", "e": ident("k")}, zl(1)))]),
     fn("paar_kopie_aendern", [("p", TS("Paar"), False)], TT, [setv(idx_lv(fld_lv("wort", lvid("p")), zl(1)), lit(C("X"))), RET({"k": "fld", "f": "wort", "e": ident("p")})]),
     fn("paar_ref_aendern", [("p", TS("Paar"), True)], TNONE, [setv(fld_lv("zahl", lvid("p")), bin_("plus", {"k": "fld", "f": "zahl", "e": ident("p")}, zl(1)))]),
+    fn("ist_gross", [("n", TZ, False)], TW, [RET({"k": "wenn", "val": True, "c": bin_("gt", ident("n"), zl(2))})]),
     fn("fib", [("n", TZ, False)], TZ, [if_(bin_("lt", ident("n"), zl(2)), [RET(ident("n"))]), RET(bin_("plus", call("fib", [("n", bin_("minus", ident("n"), zl(1)))]), call("fib", [("n", bin_("minus", ident("n"), zl(2)))])))]),
     fn("finde", [("l", TL(TT), False), ("x", TT, False)], TZ, [
         {"k": "foreach", "v": "e", "t": TT, "idx": "i", "in": ident("l"), "body": [if_(bin_("eq", ident("e"), ident("x")), [RET(ident("i"))])]}, RET(zl(0))]),
@@ -464,6 +465,25 @@ def stmt_cases(tier, rng):
     add("cset:element-out-of-range", [var("cl", TL(TZ), lit(L(TZ, [Z(1)])), False), cset("plus", idx_lv(lvid("cl"), zl(2)), zl(1))], ident("cl"), TL(TZ))
     add("cset:field", [var("cp", TS("Paar"), new("Paar", zahl=zl(5), wort=lit(T("w"))), False), cset("minus", fld_lv("zahl", lvid("cp")), zl(6)), cset("durch", fld_lv("zahl", lvid("cp")), zl(2))], {"k": "fld", "f": "zahl", "e": ident("cp")}, TZ)
     add("cset:in-loop", [var("cv", TZ, zl(1), False), {"k": "repeat", "n": zl(5), "body": [cset("mal", lvid("cv"), zl(3)), cset("minus", lvid("cv"), zl(1))]}], ident("cv"), TZ)
+    # other spellings of the same statements: Wenn aber, one-line bodies, "x ist <Literal>", "wahr / falsch, wenn"
+    for v in range(0, 5):
+        chain3 = dict(if_(bin_("eq", ident("sv"), zl(0)), [acc_add(lit(T("null")))], [dict(if_(bin_("eq", ident("sv"), zl(1)), [acc_add(lit(T("eins")))],
+                      [dict(if_(bin_("gt", ident("sv"), zl(3)), [acc_add(lit(T("gross")))], [acc_add(lit(T("sonst")))]), elif_=True)]), elif_=True)]), elif_=True)
+        for node in (chain3, chain3["else"][0], chain3["else"][0]["else"][0]):
+            node["elif"] = node.pop("elif_")
+        add("syntax:wenn-aber:%d" % v, acc_init() + [var("sv", TZ, zl(v), False), chain3], ident("acc"), TT)
+        one = dict(if_(bin_("lt", ident("sv"), zl(2)), [acc_add(lit(T("klein")))], [acc_add(lit(T("nicht klein")))]), oneline=True)
+        add("syntax:einzeiler:wenn:%d" % v, acc_init() + [var("sv", TZ, zl(v), False), one], ident("acc"), TT)
+        add("syntax:einzeiler:solange:%d" % v, [var("sv", TZ, zl(v), False), dict({"k": "while", "c": bin_("lt", ident("sv"), zl(3)), "body": [cset("plus", lvid("sv"), zl(2))]}, oneline=True)], ident("sv"), TZ)
+        add("syntax:einzeiler:fuer:%d" % v, [var("sv", TZ, zl(0), False), dict({"k": "for", "v": "i", "t": TZ, "from": zl(1), "to": zl(v), "step": NONE, "body": [cset("plus", lvid("sv"), ident("i"))]}, oneline=True)], ident("sv"), TZ)
+        add("syntax:einzeiler:fuer-jede:%d" % v, [var("sv", TZ, zl(0), False), dict({"k": "foreach", "v": "z", "t": TZ, "idx": "", "in": lit(L(TZ, [Z(x) for x in range(v)])), "body": [cset("plus", lvid("sv"), ident("z"))]}, oneline=True)], ident("sv"), TZ)
+        add("syntax:wahr-wenn:%d" % v, [var("sv", TZ, zl(v), False), var("sw", TW, {"k": "wenn", "val": True, "c": bin_("gt", ident("sv"), zl(2))}, False)], ident("sw"), TW)
+        add("syntax:falsch-wenn:%d" % v, [var("sv", TZ, zl(v), False), var("sw", TW, lit(W(True)), False), {"k": "setis", "lv": lvid("sw"), "e": {"k": "wenn", "val": False, "c": bin_("gt", ident("sv"), zl(2))}}], ident("sw"), TW)
+        add("syntax:gib-wahr-wenn:%d" % v, [], call("ist_gross", [("n", zl(v))]), TW)
+    for tn, t, v0, v1 in (("Z", TZ, zl(1), lit(Z(MAXI))), ("K", TK, lit(K(1, 1)), lit(K(5, 2))), ("B", TBY, lit(B(1)), zl(255)), ("KausZ", TK, lit(K(1, 1)), zl(3)), ("W", TW, lit(W(False)), lit(W(True))), ("C", TC, lit(C("a")), lit(C("€"))),
+                           ("T", TT, lit(T("alt")), lit(T("neu ö")))):
+        add("syntax:ist-literal:%s" % tn, [var("sv", t, v0, False), {"k": "setis", "lv": lvid("sv"), "e": v1}], ident("sv"), t)
+    add("syntax:ist-literal:element", [var("sl", TL(TT), lit(L(TT, [T("a"), T("b")])), False), {"k": "setis", "lv": idx_lv(lvid("sl"), zl(2)), "e": lit(T("neu"))}], ident("sl"), TL(TT))
     # functions: recursion, early return from nested constructs, value and Referenz parameters, globals
     for n in (0, 1, 2, 7, 10):
         add("call:fib:%d" % n, [], call("fib", [("n", zl(n))]), TZ)
